@@ -16,6 +16,14 @@ PROP = "C14"
 
 HOSTILE = [
     # (pattern, replacement, source, count)
+    # the template spells a string in a way the source does not, the source spells that value in several ways, on lines no match touches
+    ("f({{x}})", 'g({{x}}, "x")', "a = 'x'\nb = '''x'''\nc = 'x'\ny = f(1)\nd = '''x'''\n", 0),
+    ("f({{x}})", "g({{x}}, 'yy')", 'a = r"yy"\nb = "yy"\nc = r"yy"\ny = f(1)\n', 0),
+    ("f({{x}})", 'g({{x}}, "k", b"k")', "a = b'k'\nb = 'k'\nc = u'k'\nd = '''k'''\ny = f(a)\ne = \"\"\"k\"\"\"\n", 0),
+    # several multi-byte characters before the match and another one right behind its start or end
+    ("f({{x}})", "g({{x}})", 'x = ["日本語", -f("é")]\ny = ["äöü", not f("é"), f("ü")]\n', 0),
+    ("{{a}} + {{b}}", "add({{a}}, {{b}})", 's = "日本" ; t = -é + ä*ö ; u = "é" + "ü" + "\U0001f600"\n', 0),
+    ("f({{x}})", "{{x}}", "r = '\U0001f600\U0001f600'; v = -f('éé')+f('é')\n", 0),
     ("f({{x}})", "{{x}} * 2", "y = f(a + b)\n", 0),
     ("f({{x}})", "not {{x}}", "y = f(a or b)\nz = f(a) == c\n", 0),
     ("f({{x}})", "{{x}}()", "y = f(lambda: 1)\n", 0),
